@@ -348,9 +348,67 @@ func (s *space) histories(c *mc.Ctx) {
 			})
 		}
 	}
+	// T11 helpers.  The point handed to New/Set is a private copy that the harness overwrites right after the call
+	// (an object that kept a reference to its argument goes wrong in every later check); what Point()/Basepoint() hand
+	// out is overwritten in place by MutateReturnedPoint in one of three ways.
+	libB := s.pts[s.baseIdx*ptalph.NumReps].P
+	scribble := func(arg *curve.EdwardsPoint) { arg.Add(arg, libB) }
+	scribbleR := func(arg *curve.RistrettoPoint) { arg.Add(arg, rp(libB)) }
+	mutE := func(q interface{}, how int, was ref.Point) ref.Point {
+		pt := q.(*curve.EdwardsPoint)
+		switch how % 3 {
+		case 0:
+			pt.Add(pt, libB)
+			return refgrp.Sum(was, ref.Base)
+		case 1:
+			pt.Identity()
+			return ref.Identity()
+		}
+		pt.Neg(pt)
+		return was.Neg()
+	}
+	mutR := func(q interface{}, how int, was ref.Point) ref.Point {
+		pt := q.(*curve.RistrettoPoint)
+		switch how % 3 {
+		case 0:
+			pt.Add(pt, rp(libB))
+			return refgrp.Sum(was, ref.Base)
+		case 1:
+			pt.Identity()
+			return ref.Identity()
+		}
+		pt.Neg(pt)
+		return was.Neg()
+	}
+	heldE := func(key string) func(w *mc.W, q interface{}, want ref.Point, where string, cas map[string]string) {
+		return func(w *mc.W, q interface{}, want ref.Point, where string, cas map[string]string) {
+			checkPt(w, key+"/history/returned-value", func() *curve.EdwardsPoint { return q.(*curve.EdwardsPoint) }, want, func() string { return where + ": a value handed out earlier and overwritten by the caller changed" }, cas)
+		}
+	}
+	heldR := func(key string) func(w *mc.W, q interface{}, want ref.Point, where string, cas map[string]string) {
+		return func(w *mc.W, q interface{}, want ref.Point, where string, cas map[string]string) {
+			checkR(w, key+"/history/returned-value", func() *curve.RistrettoPoint { return q.(*curve.RistrettoPoint) }, want, func() string { return where + ": a value handed out earlier and overwritten by the caller changed" }, cas)
+		}
+	}
+	pointE := func(m int) ref.Point { return s.elems[ePts[m].e].P }
+	pointR := func(m int) ref.Point { return s.elems[rPts[m].e].P }
+
 	kE := &histKind{name: "ExpandedEdwardsPoint", canSet: true,
-		newObj: func(p int) interface{} { return curve.NewExpandedEdwardsPoint(ePts[p].P) },
-		set:    func(o interface{}, p int) { o.(*curve.ExpandedEdwardsPoint).SetEdwardsPoint(ePts[p].P) },
+		newObj: func(p int) interface{} {
+			arg := cp(ePts[p].P)
+			o := curve.NewExpandedEdwardsPoint(arg)
+			scribble(arg)
+			return o
+		},
+		set: func(o interface{}, p int) {
+			arg := cp(ePts[p].P)
+			o.(*curve.ExpandedEdwardsPoint).SetEdwardsPoint(arg)
+			scribble(arg)
+		},
+		get:       func(o interface{}) interface{} { return o.(*curve.ExpandedEdwardsPoint).Point() },
+		mutate:    mutE,
+		checkHeld: heldE("ExpandedEdwardsPoint"),
+		point:     pointE,
 		copyObj: func(o interface{}) interface{} {
 			cpy := *o.(*curve.ExpandedEdwardsPoint)
 			return &cpy
@@ -361,8 +419,21 @@ func (s *space) histories(c *mc.Ctx) {
 	s.runHistories(c, kE, depth, npts)
 
 	kR := &histKind{name: "ExpandedRistrettoPoint", canSet: true,
-		newObj: func(p int) interface{} { return curve.NewExpandedRistrettoPoint(rp(rPts[p].P)) },
-		set:    func(o interface{}, p int) { o.(*curve.ExpandedRistrettoPoint).SetRistrettoPoint(rp(rPts[p].P)) },
+		newObj: func(p int) interface{} {
+			arg := rp(rPts[p].P)
+			o := curve.NewExpandedRistrettoPoint(arg)
+			scribbleR(arg)
+			return o
+		},
+		set: func(o interface{}, p int) {
+			arg := rp(rPts[p].P)
+			o.(*curve.ExpandedRistrettoPoint).SetRistrettoPoint(arg)
+			scribbleR(arg)
+		},
+		get:       func(o interface{}) interface{} { return o.(*curve.ExpandedRistrettoPoint).Point() },
+		mutate:    mutR,
+		checkHeld: heldR("ExpandedRistrettoPoint"),
+		point:     pointR,
 		copyObj: func(o interface{}) interface{} {
 			cpy := *o.(*curve.ExpandedRistrettoPoint) //nolint:govet // by-value copy is the operation under test
 			return &cpy
@@ -412,7 +483,16 @@ func (s *space) histories(c *mc.Ctx) {
 		checkPt(w, key+"MulBasepoint", func() *curve.EdwardsPoint { return nr().MulBasepoint(tbl, oneSc) }, s.elems[P.e].P, d("MulBasepoint(1)"), cas)
 	}
 	kT := &histKind{name: "EdwardsBasepointTable",
-		newObj: func(p int) interface{} { return curve.NewEdwardsBasepointTable(ePts[p].P) },
+		newObj: func(p int) interface{} {
+			arg := cp(ePts[p].P)
+			o := curve.NewEdwardsBasepointTable(arg)
+			scribble(arg)
+			return o
+		},
+		get:       func(o interface{}) interface{} { return o.(*curve.EdwardsBasepointTable).Basepoint() },
+		mutate:    mutE,
+		checkHeld: heldE("EdwardsBasepointTable"),
+		point:     pointE,
 		copyObj: func(o interface{}) interface{} {
 			cpy := *o.(*curve.EdwardsBasepointTable)
 			return &cpy
@@ -424,7 +504,16 @@ func (s *space) histories(c *mc.Ctx) {
 	}
 	s.runHistories(c, kT, depth+c.Pick(0, 1), npts)
 	kRT := &histKind{name: "RistrettoBasepointTable",
-		newObj: func(p int) interface{} { return curve.NewRistrettoBasepointTable(rp(rPts[p].P)) },
+		newObj: func(p int) interface{} {
+			arg := rp(rPts[p].P)
+			o := curve.NewRistrettoBasepointTable(arg)
+			scribbleR(arg)
+			return o
+		},
+		get:       func(o interface{}) interface{} { return o.(*curve.RistrettoBasepointTable).Basepoint() },
+		mutate:    mutR,
+		checkHeld: heldR("RistrettoBasepointTable"),
+		point:     pointR,
 		copyObj: func(o interface{}) interface{} {
 			cpy := *o.(*curve.RistrettoBasepointTable)
 			return &cpy
@@ -451,6 +540,7 @@ func (s *space) histories(c *mc.Ctx) {
 	for _, k := range []string{"ExpandedEdwardsPoint", "ExpandedRistrettoPoint"} {
 		c.Require("hist/"+k+"/copied-then-one-side-set", 20)
 		c.Require("hist/"+k+"/used-then-set", 4)
+		c.Require("hist/"+k+"/returned-point-overwritten", 100)
 		c.Require(fmt.Sprintf("hist/%s/depth=%d", k, depth), 200)
 	}
 	for _, k := range []string{"EdwardsBasepointTable", "RistrettoBasepointTable"} {
